@@ -16,6 +16,37 @@ def EN(cls, enum):
 KEY_VALUE = ('obj', 'kmip.core.objects.KeyValue',
              {'key_material': ('obj', 'kmip.core.objects.KeyMaterial', {'value': SECRET}),
               'attributes': ('const', 'EMPTYLIST')})
+def _LO(k):
+    return ('lazyopt', k)
+
+
+# key wrapping data of a registered (wrapped) key: only the wrapping method is required by the decoder
+CPARAMS = ('obj', 'kmip.core.attributes.CryptographicParameters',
+           {'_block_cipher_mode': _LO(EN('kmip.core.primitives.Enumeration', 'BlockCipherMode')),
+            '_padding_method': _LO(EN('kmip.core.primitives.Enumeration', 'PaddingMethod')),
+            '_hashing_algorithm': _LO(EN('kmip.core.primitives.Enumeration', 'HashingAlgorithm')),
+            '_key_role_type': _LO(EN('kmip.core.primitives.Enumeration', 'KeyRoleType')),
+            '_digital_signature_algorithm': _LO(EN('kmip.core.primitives.Enumeration', 'DigitalSignatureAlgorithm')),
+            '_cryptographic_algorithm': _LO(EN('kmip.core.primitives.Enumeration', 'CryptographicAlgorithm')),
+            '_random_iv': _LO(('obj', 'kmip.core.primitives.Boolean', {'value': 'bool'})),
+            '_iv_length': _LO(('obj', 'kmip.core.primitives.Integer', {'value': 'nat'})),
+            '_tag_length': _LO(('obj', 'kmip.core.primitives.Integer', {'value': 'nat'})),
+            '_fixed_field_length': _LO(('obj', 'kmip.core.primitives.Integer', {'value': 'nat'})),
+            '_invocation_field_length': _LO(('obj', 'kmip.core.primitives.Integer', {'value': 'nat'})),
+            '_counter_length': _LO(('obj', 'kmip.core.primitives.Integer', {'value': 'nat'})),
+            '_initial_counter_value': _LO(('obj', 'kmip.core.primitives.Integer', {'value': 'nat'}))})
+TEXTV = ('obj', 'kmip.core.primitives.TextString', {'value': 'nonempty_str'})
+EKI = ('obj', 'kmip.core.objects.EncryptionKeyInformation',
+       {'_unique_identifier': TEXTV, '_cryptographic_parameters': ('opt', CPARAMS)})
+MSKI = ('obj', 'kmip.core.objects.MACSignatureKeyInformation',
+        {'_unique_identifier': TEXTV, '_cryptographic_parameters': ('opt', CPARAMS)})
+KWD = ('obj', 'kmip.core.objects.KeyWrappingData',
+       {'_wrapping_method': EN('kmip.core.primitives.Enumeration', 'WrappingMethod'),
+        '_encryption_key_information': ('opt', EKI), '_mac_signature_key_information': ('opt', MSKI),
+        '_mac_signature': _LO(('obj', 'kmip.core.primitives.ByteString', {'value': 'bytes'})),
+        '_iv_counter_nonce': _LO(('obj', 'kmip.core.primitives.ByteString', {'value': 'bytes'})),
+        '_encoding_option': _LO(EN('kmip.core.primitives.Enumeration', 'EncodingOption'))})
+
 KEY_BLOCK = ('obj', 'kmip.core.objects.KeyBlock',
              {'key_format_type': EN('kmip.core.misc.KeyFormatType', 'KeyFormatType'),
               'key_compression_type': 'none', 'key_value': KEY_VALUE,
@@ -23,7 +54,7 @@ KEY_BLOCK = ('obj', 'kmip.core.objects.KeyBlock',
                                                     'CryptographicAlgorithm')),
               'cryptographic_length': ('opt', ('obj', 'kmip.core.attributes.CryptographicLength',
                                                {'value': 'int32nat'})),
-              'key_wrapping_data': 'none'})
+              'key_wrapping_data': ('opt', KWD)})
 CORE = ('oneof',
         ('obj', 'kmip.core.secrets.SymmetricKey', {'key_block': KEY_BLOCK}),
         ('obj', 'kmip.core.secrets.PublicKey', {'key_block': KEY_BLOCK}),
@@ -67,6 +98,12 @@ def t_fields_carried_over(ev, outcome, exc, path, I):
         want = {'value': f(src, 'certificate_value', 'value')}
     elif name == 'OpaqueObject':
         want = {'value': f(src, 'opaque_data_value', 'value'), 'opaque_type': f(src, 'opaque_data_type', 'value')}
+    kwd = f(src, 'key_block', 'key_wrapping_data') if name in ('SymmetricKey', 'PublicKey', 'PrivateKey') else None
+    if kwd is not None:
+        want['_kdw_wrapping_method'] = f(kwd, '_wrapping_method', 'value')
+        eki = kwd.fields.get('_encryption_key_information')
+        if eki is not None:
+            want['_kdw_eki_unique_identifier'] = f(eki, '_unique_identifier', 'value')
     if getattr(res, 'cls', None) is None or res.cls.__name__.replace('X509', '') != name:
         return "a %s is stored as a %s" % (name, getattr(getattr(res, 'cls', None), '__name__', res))
     for k, v in want.items():
@@ -86,7 +123,8 @@ c.raises(('TypeError', 'ValueError'))       # what Register maps to Invalid Fiel
 c.scope('raises.unexpected', 'C13')
 c.trace("stored-fields-are-the-registered-ones", t_fields_carried_over)
 c.scope('trace.stored-fields', 'C05')
-c.notes.append("key wrapping data of the registered key: None (the wrapped-key conversion is not under contract)")
+c.notes.append("key wrapping data of a registered wrapped key: every shape the decoder accepts (wrapping method "
+               "required; key information, parameters, signature, IV and encoding option optional)")
 
 
 def _native_secret_in_text(pre, post, raised):
